@@ -302,8 +302,12 @@ mut('c12-no-dedup (revert of fix)', ['C12'], 'parameters() reports shared parame
                 seen.add(id(p))
                 unique_params.append(p)
         return unique_params""", "        return params")], rules=['C12.ONCE'], accept_incomplete=True)
-mut('c12-dedup-by-equality', ['C12'], 'parameters() de-duplicates with `p not in list` (value comparison / elementwise ==)',
-    [(M, "            if id(p) not in seen:\n                seen.add(id(p))\n                unique_params.append(p)", "            if p not in unique_params:\n                unique_params.append(p)")], rules=['C12.ONCE'])
+mut('c12-twin-dedup-by-membership', ['C12'], 'parameters() de-duplicates with `p not in list`: Tensor / Parameter define no __eq__, so list membership IS the identity test (behaviour preserving; '
+    'the evaluated rule treats it as value comparison only when the class overrides __eq__)',
+    [(M, "            if id(p) not in seen:\n                seen.add(id(p))\n                unique_params.append(p)", "            if p not in unique_params:\n                unique_params.append(p)")], expect='silent')
+mut('c12-dedup-by-equality', ['C12'], 'Tensor gains an elementwise __eq__ and parameters() de-duplicates with `p not in list` (value comparison: equal-valued parameters collapse)',
+    [(M, "            if id(p) not in seen:\n                seen.add(id(p))\n                unique_params.append(p)", "            if p not in unique_params:\n                unique_params.append(p)"),
+     (T, "    def __len__(self)", "    def __eq__(self, other):\n        return bool(np.all(self.data == getattr(other, 'data', other)))\n\n    __hash__ = object.__hash__\n\n    def __len__(self)")], rules=['C12.ONCE'], accept_incomplete=True)
 mut('c12-setattr-stale (revert of fix)', ['C12'], 'plain assignment leaves the old registration', [(M, """            for registry in ('_parameters', '_submodules'):
                 if registry in self.__dict__: self.__dict__[registry].pop(__name, None)
 """, "")], rules=['C12.REG-EXCLUSIVE'])
